@@ -204,6 +204,14 @@ pub fn worker_main() -> ! {
         };
         libc::setrlimit(libc::RLIMIT_CORE, &rl);
     }
+    if let Some(cpu) = std::env::var("VX_C13_CPU").ok().and_then(|s| s.parse::<usize>().ok()) {
+        unsafe {
+            let ncpu = libc::sysconf(libc::_SC_NPROCESSORS_ONLN).max(1) as usize;
+            let mut set: libc::cpu_set_t = std::mem::zeroed();
+            libc::CPU_SET(cpu % ncpu, &mut set);
+            libc::sched_setaffinity(0, std::mem::size_of::<libc::cpu_set_t>(), &set);
+        }
+    }
     if std::env::var("VX_C13_KEEP_STDERR").is_err() {
         // stderr goes to an unlinked temp file, whose growth is the "silently" observation
         use std::os::fd::AsRawFd;
@@ -215,6 +223,9 @@ pub fn worker_main() -> ! {
                 let _ = vx::common::mute_stderr();
             }
         }
+    }
+    if std::env::var("VX_C13_NO_STACK_CACHE").is_err() {
+        crate::stackcache::enable();
     }
     vx::common::silence_panics();
     if std::env::var("VX_C13_KEEP_STDERR").is_ok() {
